@@ -159,6 +159,9 @@ def convert(input_image_stream, output_image_stream):
             for jj in range(min(b, y)):
                 dump(a)
                 y = y - 1
+        if y > 0:
+            debug("image data ends {} bytes early".format(y))
+            sys.exit(1)
     else:
         for jj in range(y):
             dump(ord(iotostr(f.read(1))))
